@@ -495,6 +495,80 @@ def make_rewriter(rel, plan):
     return rw
 
 
+def make_arm_synth(rel, arms, line_map):
+    """(round 9, bfn) target key `arm_methods`: [{"impl": "ChannelHandler", "fn": "do_handle", "arm": "RevokeCommitmentTx",
+    "ret": "msgs::RevokeCommitmentTxReply"}, …].  Every listed arm `Message::<arm>(<binder>) => <body>` of the `match` in
+    `<impl>::<fn>` is appended to the source text as a method of its own,
+
+        impl <impl> { fn <fn>__<arm>(&self, <binder>: msgs::<arm>) -> Result<<ret>> <body> }
+
+    (the body's tokens verbatim; an expression arm is wrapped in braces), which is then translated like any other method:
+    what the handler does with one message kind becomes one generated definition.  `ret` is the reply type the arm boxes
+    (`Ok(Box::new(msgs::XReply {..}))`: `Box::new` is the identity, so a wrong declaration is a type error of the
+    translation).  Fail closed: an arm that is not found exactly once marks the method as failed."""
+    from rsparse import FileIndex
+
+    def rw(src, log, failed):
+        idx = FileIndex(rel, src)
+        toks = idx.toks
+        out = []
+        for a in arms:
+            impl, fn, arm = a["impl"], a["fn"], a["arm"]
+            name = "%s__%s" % (fn, arm)
+            k = idx.fns.get((impl, fn))
+            if not isinstance(k, int):
+                failed[(impl, name)] = "%s: function %s::%s not found or ambiguous" % (rel, impl, fn); continue
+            j, d = k, 0
+            while toks[j].s != "{": j += 1
+            e = j
+            while e < len(toks):
+                if toks[e].k != "str":
+                    if toks[e].s == "{": d += 1
+                    elif toks[e].s == "}":
+                        d -= 1
+                        if d == 0: break
+                e += 1
+            hits = [i for i in range(j, e - 3) if toks[i].s == "Message" and toks[i + 1].s == "::" and toks[i + 2].s == arm
+                    and toks[i + 3].s == "(" and toks[i].k == "id"]
+            hits = [i for i in hits if any(toks[q].s == "=>" for q in range(i + 4, min(i + 12, e)))]
+            if len(hits) != 1:
+                failed[(impl, name)] = "%s: arm Message::%s occurs %d times in %s::%s" % (rel, arm, len(hits), impl, fn); continue
+            i = hits[0] + 4
+            binder = []
+            while toks[i].s != ")":
+                binder.append(toks[i].s); i += 1
+            if len(binder) != 1 or toks[i + 1].s != "=>":
+                failed[(impl, name)] = "%s: arm Message::%s: binder %r / no `=>`" % (rel, arm, binder); continue
+            b = i + 2
+            if toks[b].s == "{":
+                q, d = b, 0
+                while True:
+                    if toks[q].k != "str":
+                        if toks[q].s == "{": d += 1
+                        elif toks[q].s == "}":
+                            d -= 1
+                            if d == 0: break
+                    q += 1
+                body = " ".join(t.s for t in toks[b:q + 1])
+            else:
+                q, d = b, 0
+                while True:
+                    if toks[q].k != "str":
+                        if toks[q].s in ("(", "{", "["): d += 1
+                        elif toks[q].s in (")", "}", "]"):
+                            if d == 0: break
+                            d -= 1
+                        elif toks[q].s == "," and d == 0: break
+                    q += 1
+                body = "{ " + " ".join(t.s for t in toks[b:q]) + " }"
+            bn = binder[0] if binder[0] != "_" else "_m"
+            out.append("impl %s { fn %s(&self, %s: msgs::%s) -> Result<%s> %s }" % (impl, name, bn, a.get("payload", arm), a["ret"], body))
+            line_map[(impl, name)] = toks[hits[0]].line
+            log.append(("arm `Message::%s` of %s::%s (%s:%d) as the method %s" % (arm, impl, fn, rel, toks[hits[0]].line, name), 1))
+        return src + "\n" + "\n".join(out) + "\n"
+    return rw
+
+
 def load_targets():
     """TARGETS above plus every `translate/fn_targets/*.json` (one file per area and builder, so that adding targets
     never conflicts in git).  A file holds one dict or a list of dicts with the keys of a TARGETS block
@@ -553,14 +627,21 @@ def _json_plan(tg):
 
 
 def unit_for(repo, tg):
+    line_map = {}
     norm = _json_plan(tg)
     import fn_arms
+    # `arms` (builder b0103, translate/fn_arms.py): the dispatch function's lines are rewritten in place into one method per
+    # selected arm; `arm_methods` (builder bfn, make_arm_synth above): one method per listed arm is appended to the text
+    rewrite = fn_arms.compose(make_arm_synth(tg["rel"], tg["arm_methods"], line_map) if tg.get("arm_methods") else None,
+                              fn_arms.make_arm_splitter(tg["rel"], tg["arms"]) if tg.get("arms") else None,
+                              make_rewriter(tg["rel"], norm) if norm else None)
     u = Unit(repo, tg["rel"], "VlsModel.Gen.Fn" + tg["area"], tg.get("consts", ()), tg.get("externals", {}),
              tg.get("structs", ()), foreign_structs=tg.get("foreign_structs"), tuple_structs=tg.get("tuple_structs"),
              fn_files=tg.get("fns_from", ()),
              views=tg.get("views"), error_ctors=tg.get("error_ctors"), compact_guards=bool(tg.get("compact_guards")), any_order=bool(tg.get("any_order")),
-             rewrite=fn_arms.compose(fn_arms.make_arm_splitter(tg["rel"], tg["arms"]) if tg.get("arms") else None,
-                                     make_rewriter(tg["rel"], norm) if norm else None))
+             rewrite=rewrite)
+    u.vec_types = tuple(tg.get("vec_types", ()))
+    u.line_map = line_map      # synthesized methods (arms, list form): the line of the arm in the real source
     u.log_macros = tuple(tg.get("log_macros", ()))     # declared logging-only macros of the file
     u.reindent_closures = bool(tg.get("reindent_closures"))    # (b0809) see emit_m in rs2lean.py
     return u
@@ -591,6 +672,9 @@ def census(repo, tgs=None, units=None):
             out[rel] = {"properties": props_of[rel], "error": "file not found"}; continue
         try:
             u = Unit(repo, rel, "VlsModel.Census")
+            # (round 9) the census asks "is it inside the subset with the obvious target configuration": the tuple structs of
+            # the file itself are read as the tuple of their components (what a target lists under `tuple_structs`)
+            u.open_tuple_structs = set(u.fi.tuple_structs)
         except (RsError, OSError) as e:
             out[rel] = {"properties": props_of[rel], "error": "cannot be indexed: %s" % e}; continue
         rows, arm_rows = [], []
@@ -634,10 +718,43 @@ def census(repo, tgs=None, units=None):
             else:
                 why = re.sub(r"^([\w:]+: )+", "", str(why))
                 rows.append({"fn": qn, "line": line_no, "status": "not translatable", "why": why[:200]})
+        # (round 9) dispatch arms translated as methods of their own (target key `arm_methods`): listed per dispatch function,
+        # next to the `fn` items (they are not `fn` items of the source and are not counted as such)
+        arms_out = []
+        for tg in tgs:
+            if tg["rel"] != rel or not tg.get("arm_methods"): continue
+            tu = (units or {}).get(tg["area"])
+            thm_of = {(t[0] or None, t[1]): t[3] for t in tg["fns"]}
+            for (impl_, fn_) in sorted(set((a["impl"], a["fn"]) for a in tg["arm_methods"])):
+                k_ = u.fi.fns.get((impl_, fn_))
+                total = None
+                if isinstance(k_, int):
+                    toks_, j_, d_ = u.fi.toks, k_, 0
+                    while toks_[j_].s != "{": j_ += 1
+                    e_ = j_
+                    while e_ < len(toks_):
+                        if toks_[e_].k != "str":
+                            if toks_[e_].s == "{": d_ += 1
+                            elif toks_[e_].s == "}":
+                                d_ -= 1
+                                if d_ == 0: break
+                        e_ += 1
+                    total = sum(1 for i_ in range(j_, e_ - 3) if toks_[i_].s == "Message" and toks_[i_ + 1].s == "::" and toks_[i_ + 3].s == "("
+                                and any(toks_[q_].s == "=>" for q_ in range(i_ + 4, min(i_ + 12, e_))))
+                lst = []
+                for a in tg["arm_methods"]:
+                    if (a["impl"], a["fn"]) != (impl_, fn_): continue
+                    key_ = (a["impl"], "%s__%s" % (a["fn"], a["arm"]))
+                    ok_ = tu is not None and key_ in tu.fns
+                    lst.append({"arm": a["arm"], "status": ("tied" if thm_of.get(key_) else "translated") if ok_ else "not translatable",
+                                "theorem": thm_of.get(key_), "line": (tu.fns[key_].line if ok_ else 0),
+                                **({} if ok_ else {"why": (tu.failed.get(key_) if tu else "unit missing")})})
+                arms_out.append({"fn": "%s::%s" % (impl_, fn_), "area": tg["area"], "arms_total": total, "arms": lst})
         rows += arm_rows
         cnt = lambda st: sum(1 for r in rows if r["status"] == st)
         out[rel] = {"properties": props_of[rel], "fns": len(rows), "tied": cnt("tied"), "translated_untied": cnt("translated"),
-                    "not_translatable": cnt("not translatable"), "declarations": cnt("declaration"), "list": rows}
+                    "not_translatable": cnt("not translatable"), "declarations": cnt("declaration"), "list": rows,
+                    **({"dispatch_arms": arms_out} if arms_out else {})}
     return out
 
 
@@ -818,20 +935,25 @@ def extract(repo):
             qn = (impl + "::" if impl else "") + name
             ent = info.setdefault(prop, {"facts": {"fn_gen": {}}, "obligations": []})
             if thm is not None:
-                pf = os.path.join(HERE, "..", "lean", "VlsModel", "Props", prop + "Fn.lean")
+                # (round 9) target key `props_module`: the tying theorems of a file that several properties anchor live in
+                # a module of their own (`Props/HandlerFn.lean`, `Props/ApproverFn.lean`; bin/extra_modules.json makes
+                # `bin/check` build and audit it with those properties) instead of `Props/<property>Fn.lean`
+                pmod = tg.get("props_module") or (prop + "Fn")
+                pf = os.path.join(HERE, "..", "lean", "VlsModel", "Props", pmod + ".lean")
                 if not os.path.exists(pf) or not re.search(r"\btheorem\s+" + re.escape(thm) + r"\b", open(pf).read()):
-                    raise ExtractError("x_fn: target %s names theorem %s which is not in Props/%sFn.lean" % (qn, thm, prop))
+                    raise ExtractError("x_fn: target %s names theorem %s which is not in Props/%s.lean" % (qn, thm, pmod))
             if f is None and prop == FIXTURE_PROP:
                 raise ExtractError("x_fn: translator fixture %s is NOT TRANSLATED: %s" % (qn, u.failed.get((impl, name))))
             if f is None:
-                ent["facts"]["fn_gen"][qn] = {"file": tg["rel"], "translated": False, "why": u.failed.get((impl, name))}
+                ent["facts"]["fn_gen"][qn] = {"file": tg["rel"], "area": tg["area"], "translated": False, "why": u.failed.get((impl, name)),
+                                             "tied_by": thm, "props_module": tg.get("props_module") or (prop + "Fn")}
                 ent["obligations"].append("Gen.Fn%s: %s is NOT TRANSLATED (outside the subset): %s breaks" % (tg["area"], qn, thm))
                 continue
             ent["facts"]["fn_gen"][qn] = {
-                "file": tg["rel"], "line": f.line, "lean": "VlsModel.Gen.Fn%s.%s" % (tg["area"], f.lean_name),
+                "file": tg["rel"], "area": tg["area"], "line": f.line, "lean": "VlsModel.Gen.Fn%s.%s" % (tg["area"], f.lean_name),
                 "monadic": f.monadic, "externals": ["%s : %s" % x for x in f.exts], "dropped": f.dropped,
                 "calls": sorted(set(f.callees)), "sha1": hashlib.sha1(f.text.encode()).hexdigest()[:12],
-                "tied_by": thm}
+                "tied_by": thm, "props_module": tg.get("props_module") or (prop + "Fn")}
             if thm:
                 ent["obligations"].append("Gen.Fn%s.%s = hand-written model (theorem %s)" % (tg["area"], f.lean_name, thm))
             if len(tup) > 4 and tup[4] == "snippet":
